@@ -438,6 +438,12 @@ func (mr *msgReader) Read(p []byte) (n int, err error) {
 	// connection are always wrapped and must not be mistaken for it, even when they wrap
 	// io.EOF: that is a connection cut in the middle of a message.
 	if err == io.EOF || err == io.ErrUnexpectedEOF && mr.fin && mr.flate {
+		if mr.flate {
+			err = mr.discardRest()
+			if err != nil {
+				return n, fmt.Errorf("failed to read: %w", err)
+			}
+		}
 		mr.putFlateReader()
 		return n, io.EOF
 	}
@@ -445,6 +451,25 @@ func (mr *msgReader) Read(p []byte) (n int, err error) {
 		return n, fmt.Errorf("failed to read: %w", err)
 	}
 	return n, nil
+}
+
+// discardRest consumes what is left of a compressed message once its DEFLATE
+// stream has ended. A stream that ends with a final block (BFINAL set) ends
+// before the message does: RFC 7692 section 7.2.3.4 has the sender append an
+// empty stored block header after it, and the final frame may still be to come.
+// Whatever is left behind would be taken for the start of the next message.
+func (mr *msgReader) discardRest() error {
+	// Bytes of this message that flate did not need.
+	mr.flateBufio.Reset(mr.readFunc)
+
+	var p [64]byte
+	for mr.payloadLength > 0 || !mr.fin {
+		_, err := mr.read(p[:])
+		if err != nil {
+			return err
+		}
+	}
+	return nil
 }
 
 func (mr *msgReader) read(p []byte) (int, error) {
